@@ -59,3 +59,8 @@ claim("C18", "model_checking",
       "1e-9 relative slack on the half unit for binary neighbours of decimal ties; values between grid points not examined",
       "bounded-exhaustive enumeration of values x precisions x configurations on the implementation with a reference parser",
       "DESIGN.md section 4 C18")
+claim("C17", "model_checking",
+      "Explicit exploration of operation histories on shared description objects: every kind of the network loader table x complex notation x value palette x position in a 1..3-entry description and every kind of the circuit loader table, each followed by every history of length <= 3 of load/convert operations on that one object; every nested document of depth <= 3 over {dict, list, list of dicts} with complex/float/string leaves through dictify/undictify, JSON and YAML serialisation and real temporary files, applied up to three times to the same object. Every step is compared with the same operation on a pristine deep copy, with the exact expected element/document, and the object with its snapshot.",
+      "python json/yaml; float repr round trip",
+      "explicit-state exploration of operation histories (depth 3) over real loader calls with a deep-snapshot and isolation oracle",
+      "DESIGN.md section 4 C17")
